@@ -21,7 +21,7 @@ RULE = ("agent parameter grids x market states (price histories built by real tr
 WIT = ["fcn_buy", "fcn_sell", "fcn_nothing", "fcn_inaccessible", "fcn_clock_below_window", "fcn_mean_reversion_distinct",
        "share_choice_0", "share_choice_1", "share_zero_volume", "mm_quotes", "mm_base_from_market_price", "mm_inaccessible_market_ignored",
        "mm_market_order_on_top", "arb_no_action_within_threshold", "arb_gap_exactly_threshold", "arb_buy_index", "arb_sell_index",
-       "arb_not_running", "arb_two_indices_acted", "arb_component_moved_between_consultations", "test_agent_cases", "fcn_normal_margin_cases", "fcn_on_index_market", "well_formed_orders"]
+       "arb_not_running", "arb_two_indices_acted", "arb_component_moved_between_consultations", "test_agent_cases", "fcn_normal_margin_cases", "fcn_on_index_market", "group_member_setups", "well_formed_orders"]
 
 
 class Sim:
@@ -505,7 +505,64 @@ def arb2_fn(case, wit):
     return (p2 != 101, p3 != 100, order)
 
 
-GRIDS = {"test_agent": test_agent_fn, "arbitrage_two_indices": arb2_fn, "fcn_long_lived_agent": fcn_persistent_fn, "fcn": fcn_fn, "market_share_fcn": share_fn, "market_maker": mm_fn, "arbitrage": arb_fn}
+# ------------------------------------------------------------------------------------------------ groups
+
+
+def group_cases(tier):
+    for cls in ("FCNAgent", "MarketShareFCNAgent", "MarketMakerAgent", "ArbitrageAgent", "TestAgent"):
+        for variant in ("random_values", "constants", "normal_margin"):
+            for us in ((0.125, 0.5, 0.875), (0.875, 0.125, 0.5)):
+                if variant == "normal_margin" and "FCN" not in cls:
+                    continue
+                yield (cls, variant, us)
+
+
+def group_fn(case, wit):
+    """the runner hands ONE settings object to every agent of a group: an agent set up from the shared object must
+    come out exactly like a twin set up (same PRNG answers) from a private copy, and the object must stay unchanged"""
+    import copy
+    from pams.agents import MarketMakerAgent, MarketShareFCNAgent, TestAgent
+    cls, variant, us = case
+    klass = {"FCNAgent": FCNAgent, "MarketShareFCNAgent": MarketShareFCNAgent, "MarketMakerAgent": MarketMakerAgent,
+             "ArbitrageAgent": ArbitrageAgent, "TestAgent": TestAgent}[cls]
+    rnd = variant != "constants"
+    st = {"cashAmount": [100, 900] if rnd else 500, "assetVolume": [1, 9] if rnd else 5}
+    if "FCN" in cls:
+        st.update({"fundamentalWeight": {"expon": [1.0]} if rnd else 1.0, "chartWeight": [0.0, 2.0] if rnd else 0.5,
+                   "noiseWeight": {"uniform": [0.0, 1.0]} if rnd else 0.25, "noiseScale": 0.001,
+                   "timeWindowSize": [3, 60] if rnd else 7, "orderMargin": [0.0, 0.1] if rnd else 0.05})
+        if variant == "normal_margin":
+            st["marginType"] = "normal"
+    elif cls == "MarketMakerAgent":
+        st.update({"targetMarket": "m0", "netInterestSpread": [0.01, 0.05] if rnd else 0.02, "orderTimeLength": 3})
+    elif cls == "ArbitrageAgent":
+        st.update({"orderVolume": 2, "orderThresholdPrice": 1.5, "orderTimeLength": 3})
+    sim = Sim()
+    m0 = mk_quote_market(sim, 0, 100, "none", tr=100)
+    shared = copy.deepcopy(st)
+    before = copy.deepcopy(shared)
+
+    def attrs(a):
+        return {k: v for k, v in vars(a).items() if isinstance(v, (int, float, str, bool, type(None), dict, list, tuple))
+                and k not in ("agent_id", "name")}
+    for i, u in enumerate(us):
+        a = klass(i, StubRandom(u=u, g=2 * u - 1, ints=int(u * 100)), sim, "a%d" % i)
+        a.setup(shared, [0])
+        b = klass(i, StubRandom(u=u, g=2 * u - 1, ints=int(u * 100)), sim, "a%d" % i)
+        b.setup(copy.deepcopy(st), [0])
+        da, db = attrs(a), attrs(b)
+        if da != db:
+            diff = sorted(k for k in set(da) | set(db) if da.get(k) != db.get(k))
+            raise Violation("C20.group_setup", "an agent set up from the settings object it shares with the other agents of its group differs from one set up from a private copy",
+                            "%s agent #%d of the group: %s" % (cls, i, ", ".join("%s=%r (private copy: %r)" % (k, da.get(k), db.get(k)) for k in diff[:4])))
+        if shared != before:
+            raise Violation("C20.group_setup", "setting up an agent modified the settings object shared by its group",
+                            "%s agent #%d: %r" % (cls, i, {k: shared.get(k) for k in set(shared) | set(before) if shared.get(k) != before.get(k)}))
+        wit.inc("group_member_setups")
+    return (cls, variant)
+
+
+GRIDS = {"group_setup": group_fn, "test_agent": test_agent_fn, "arbitrage_two_indices": arb2_fn, "fcn_long_lived_agent": fcn_persistent_fn, "fcn": fcn_fn, "market_share_fcn": share_fn, "market_maker": mm_fn, "arbitrage": arb_fn}
 
 
 def run(tier, seed):
@@ -517,6 +574,7 @@ def run(tier, seed):
     run_grid(res, "arbitrage", list(arb_cases(tier)), arb_fn, seed)
     run_grid(res, "arbitrage_two_indices", list(arb2_cases(tier)), arb2_fn, seed)
     run_grid(res, "test_agent", list(test_agent_cases(tier)), test_agent_fn, seed)
+    run_grid(res, "group_setup", list(group_cases(tier)), group_fn, seed)
     cov = res.coverage
     cov["evaluations"] += cov["witness_classes"].get("fcn_cases", 0) + cov["witness_classes"].get("fcn_persistent_cases", 0)
     cov["grids"]["fcn"]["inner_cases_per_market_state"] = len(WEIGHTS) * len(INNER)
